@@ -6,6 +6,7 @@ import (
 	"bufio"
 	"bytes"
 	"errors"
+	"io"
 	"io/ioutil"
 	"net"
 	"net/http"
@@ -13,6 +14,13 @@ import (
 
 	"github.com/google/martian/v3/zzverif/vf"
 )
+
+// originTimeout is a net.Error reporting a timeout.
+type originTimeout struct{}
+
+func (originTimeout) Error() string   { return "dial tcp 10.0.0.9:80: i/o timeout" }
+func (originTimeout) Timeout() bool   { return true }
+func (originTimeout) Temporary() bool { return true }
 
 type countingResMod struct{ calls []int }
 
@@ -34,7 +42,7 @@ func VerifC03OriginFaults() {
 	fault := vf.Choice("fault", 3)
 	refusal := 0
 	if fault == 0 {
-		refusal = vf.Choice("refusal-shape", 4)
+		refusal = vf.Choice("refusal-shape", 6)
 	}
 	var k int
 	o := &origin{}
@@ -50,6 +58,10 @@ func VerifC03OriginFaults() {
 				return nil, &net.OpError{Op: "dial", Net: "tcp", Addr: &net.TCPAddr{IP: net.IPv4(10, 0, 0, 9), Port: 80}, Err: errors.New("connect: connection refused")}
 			case 2: // failed before any address was known (unresolvable host, invalid port)
 				return nil, &net.OpError{Op: "dial", Net: "tcp", Err: &net.DNSError{Err: "no such host", Name: "example.com", IsNotFound: true}}
+			case 4: // the origin accepted, read the request and closed without a byte: the transport reports a bare io.EOF
+				return nil, io.EOF
+			case 5: // dial or handshake timeout
+				return nil, originTimeout{}
 			case 3: // wrapped once more, as http.Client does
 				return nil, &url.Error{Op: "Get", URL: "http://example.com/one", Err: &net.OpError{Op: "dial", Net: "tcp", Err: errors.New("unknown port")}}
 			}
